@@ -207,9 +207,6 @@ macro_rules! stun_total {
 stun_total!(c07_stun_decode_0, 0, 14);
 stun_total!(c07_stun_decode_19, 19, 14);
 stun_total!(c07_stun_decode_20, 20, 14);
-stun_total!(c07_stun_decode_24, 24, 14);
-stun_total!(c07_stun_decode_28, 28, 14);
-stun_total!(c07_stun_decode_32, 32, 16);
 
 /// decode of a 24-byte message = header + ONE attribute header: a zero-length attribute in the
 /// last four bytes is still visited (USE-CANDIDATE is exactly such an attribute)
